@@ -58,7 +58,7 @@ PROPS = {
     "C02": {
         "id": "C02",
         "title": "Inverse transforms invert the forward transforms",
-        "rules": ["A1b", "A1", "G7", "A2"],
+        "rules": ["A1b", "A1", "G7", "A2", "R2"],
         "clause": "every even n accepted by irfft/IfftPlanR satisfies what the twiddle-table helper believes about n, and odd n is "
                   "rejected by exception before any table is sized or indexed (member initialisers included)",
         "not_decided": "the inversion identities ifft(fft(x)) = x, irfft(rfft(x)) = x as numerics; everything about stft/istft",
